@@ -228,6 +228,19 @@ Proof.
   destruct IC as [C1 C2 C3 C4 C5 C6]. constructor; cbn; assumption.
 Qed.
 
+Lemma inv_load_into_cache s : SInv s -> SInv (fst (load_into_cache s)).
+Proof.
+  intros I. pose proof I as [H1 H2 H3 H4 H5 H6]. unfold load_into_cache.
+  pose proof (load_cache_sorted (faults_of s (use_rs s)) (regions_of s (use_rs s))) as P.
+  assert (Hs : sorted_from 0 (regions_of s (use_rs s))) by (unfold regions_of; destruct (use_rs s); assumption).
+  specialize (P Hs).
+  destruct (load_regions (faults_of s (use_rs s)) check_and_put (regions_of s (use_rs s)) []) as [[[st acc] m'] c'].
+  cbn [fst snd] in *. pose proof (inv_set_regions s (use_rs s) m' I P) as [S1 S2 S3 S4 S5 S6].
+  destruct (use_rs s); [|constructor; assumption].
+  constructor; cbn [stores lweight rweight base_r ldb batch]; try assumption.
+  apply filter_sorted. exact S6.
+Qed.
+
 Lemma inv_step s o : SInv s -> op_ok o -> SInv (fst (run_op s o)).
 Proof.
   intros I Ho. pose proof I as [H1 H2 H3 H4 H5 H6].
@@ -245,14 +258,7 @@ Proof.
   - constructor; cbn; assumption.
   - apply inv_collect. exact I.
   - apply inv_load_once. exact I.
-  - pose proof (load_cache_sorted (faults_of s (use_rs s)) (regions_of s (use_rs s))) as P.
-    assert (Hs : sorted_from 0 (regions_of s (use_rs s))) by (unfold regions_of; destruct (use_rs s); assumption).
-    specialize (P Hs).
-    destruct (load_regions (faults_of s (use_rs s)) check_and_put (regions_of s (use_rs s)) []) as [[[st acc] m'] c'].
-    cbn [fst snd] in *. pose proof (inv_set_regions s (use_rs s) m' I P) as [S1 S2 S3 S4 S5 S6].
-    destruct (use_rs s); [|constructor; assumption].
-    constructor; cbn [stores lweight rweight base_r ldb batch]; try assumption.
-    apply filter_sorted. exact S6.
+  - apply inv_load_into_cache. exact I.
   - destruct applied; cbn [fst]; [|exact I]. constructor; cbn; try assumption. apply put_sorted0; [assumption|lia].
   - destruct applied; cbn [fst]; [|exact I]. constructor; cbn; try assumption. apply del_sorted; assumption.
   - exact I.
@@ -264,6 +270,10 @@ Proof.
   - cbn [fst]. destruct written.
     + pose proof (inv_flush s I) as [F1 F2 F3 F4 F5 F6]. constructor; cbn; try assumption; try exact Logic.I.
     + constructor; cbn; try assumption; try exact Logic.I.
+  - destruct (use_rs s && loaded_once s); [exact I|].
+    pose proof (inv_load_into_cache s I) as IC. destruct (load_into_cache s) as [s' b]. cbn [fst] in IC.
+    destruct b as [| | |st l c a| | |]; try exact IC. destruct st; try exact IC.
+    destruct (use_rs s'); [|exact IC]. destruct IC as [C1 C2 C3 C4 C5 C6]. constructor; cbn; assumption.
   - destruct (lookup (regions_of s (use_rs s)) bad); [|apply inv_load_once; exact I].
     destruct (use_rs s && loaded_once s); exact I.
 Qed.
@@ -328,6 +338,12 @@ Proof.
   destruct b as [| |st l| | | |]; try exact F. destruct st; exact F.
 Qed.
 
+Lemma load_into_cache_frame s : store_part (fst (load_into_cache s)) = store_part s.
+Proof.
+  unfold load_into_cache. destruct (load_regions _ _ _ _) as [[[st acc] m'] c']. cbn [fst].
+  pose proof (set_regions_frame s (use_rs s) m') as F. destruct (use_rs s); exact F.
+Qed.
+
 Definition eff_map (m : amap Z) (e : option (Z * option Z)) : amap Z :=
   match e with Some (id, Some v) => put m id v | Some (id, None) => del m id | None => m end.
 
@@ -341,13 +357,15 @@ Proof.
   - apply delete_region_frame.
   - apply collect_frame.
   - apply load_once_frame.
-  - destruct (load_regions _ _ _ _) as [[[st acc] m'] c']. cbn [fst].
-    pose proof (set_regions_frame s (use_rs s) m') as F. destruct (use_rs s); exact F.
+  - apply load_into_cache_frame.
   - destruct applied; reflexivity.
   - destruct applied; reflexivity.
   - destruct (use_rs s); [apply save_region_frame|]. destruct applied; reflexivity.
   - destruct (use_rs s); [apply delete_region_frame|]. destruct applied; reflexivity.
   - destruct written; reflexivity.
+  - destruct (use_rs s && loaded_once s); [reflexivity|].
+    pose proof (load_into_cache_frame s) as F. destruct (load_into_cache s) as [s' b]. cbn [fst] in *.
+    destruct b as [| | |st l c a| | |]; try exact F. destruct st; try exact F. destruct (use_rs s'); exact F.
   - destruct (lookup (regions_of s (use_rs s)) bad); [|apply load_once_frame]. destruct (use_rs s && loaded_once s); reflexivity.
 Qed.
 
@@ -456,7 +474,7 @@ Definition no_rwant : Z -> option rv := fun _ => None.
 (* histories without backend switches, crashes and pruning loads; the timed flush may fire anywhere, writes of the
    store namespaces may fail *)
 Definition plain_op (o : op) : bool :=
-  match o with OSwitch _ | OCrash | OLoadIntoCache | OSaveRegionF _ _ _ | ODeleteRegionF _ _ | OCrashInFlush _ | OLoadOnceCorrupt _ => false | _ => true end.
+  match o with OSwitch _ | OCrash | OLoadIntoCache | OSaveRegionF _ _ _ | ODeleteRegionF _ _ | OCrashInFlush _ | OLoadOnceCorrupt _ | OLoadOnceIntoCache => false | _ => true end.
 Definition plain_ops (ops : list op) : bool := forallb plain_op ops.
 (* the direct backend also admits failing region writes *)
 Definition direct_op (o : op) : bool :=
